@@ -1,4 +1,5 @@
 import PenneModel.Sem.Int
+import PenneModel.Types.Paths
 import PenneModel.CF.Correct
 import PenneModel.CF.Scoped
 /-
